@@ -51,6 +51,10 @@ CLAIMED = {
    technique="exhaustive small-domain enumeration against a reference framer and an independent validity checker: size limits x payload lengths 0..max+2 and stuffing-heavy contents x flag arrangements x every noise preamble up to 4 (6) bits x every split of the bit stream into two (and many three) pieces; every single-bit and (nearly) every double-bit corruption with bit fixing off and on",
    text="About 110 000 bit streams in the quick tier are fed to the real deframer in pieces. Recovery: every in-bounds frame comes out exactly once, in order, also right after an out-of-bounds frame, shared flags, and noise. Validity: every emitted packet must be encoded (payload + CRC-16/X.25, or within one bit of it when fixing is on) by some flag-delimited, abort-free region of the input bit stream - checked by a validator that knows nothing about the deframer's state machine.",
    note="Trusted: the reference framer and CRC (bitwise from the polynomial), the region validator. Size limits are taken to count the bytes between flags including the CRC, inclusive.", ref="DESIGN.md 3-E6, 5-C13"),
+ "C14": dict(level="exploration", engine="formats",
+   technique="exhaustive enumeration of declared finite domains: parse(serialize(x)) over all u8 and a structured set of u32/i32/f32/Complex bit patterns (thorough: all 2^32 per 32-bit type); FileSink->FileSource and AuEncode->AuDecode through the real runner over a length grid and all add orders; SigMF archive members in all 24 orders; EVERY composition of a 12-byte stream into read() results, delivered in lockstep through a FIFO (FileSource) and a loopback socket (TcpSource) against a byte-queue reassembler",
+   text="Round trips are bit-exact for every enumerated value; files and AU streams come back with exact counts; SigMF data equals the source bytes for recording pairs and for archives in every member order with unrelated members; and for all 2048 ways of splitting a 12-byte stream into reads (1-byte reads, splits inside a sample) both byte-stream sources reassemble exactly the samples of the byte stream. Exhaustive over the declared domains, not over all values in the quick tier.",
+   note="Trusted: the lockstep delivery (FIONREAD on the client socket before each work() call; FIFO writes are synchronous). SigMF reads a regular file whose read() cannot be segmented from outside.", ref="DESIGN.md 3-E6, 5-C14"),
  "C15": dict(level="exploration", engine="crashx",
    technique="exhaustive small-domain input enumeration per block family (all bursts up to 7/8 samples over a 4-value alphabet, all bit strings up to 12/14 bits, all sequences up to 3/4 over 9 float specials, all marker placements, an AU header grid with every truncation point, every length for Sample::parse, SigMF metadata mutations and every archive prefix), each case run to quiescence on the real block under catch_unwind with a call cap",
    text="Every case of each declared finite domain is executed on the real code; the oracle is 'normal output, dropped data or Err - never a panic, an abort, or a block that never goes quiet'. Exhaustive within the declared domains, which are finite slices of an infinite input space: hence exploration, not a claim about all inputs.",
@@ -88,6 +92,8 @@ ENGINES = [
   "kind_free_text": "crash-point / fault-point enumeration of child processes under strace syscall injection"},
  {"name": "maps", "path": "/verif/harness/seq/src/maps.rs", "serves_properties": ["C18"],
   "kind_free_text": "exhaustive create/drop sequences with mapping and descriptor accounting"},
+{"name": "formats", "path": "/verif/harness/seq/src/formats.rs", "serves_properties": ["C14"],
+  "kind_free_text": "exhaustive enumeration of value domains, length grids, member orders and read segmentations for the byte formats"},
  {"name": "mt", "path": "/verif/harness/mt/src", "serves_properties": ["C03", "C04", "C05", "C07"],
   "kind_free_text": "stateless model checking: deviation-bounded DFS over schedules of the real code on the shuttle runtime, timeouts as scheduler choices"},
 ]
